@@ -12,7 +12,14 @@ database and every list of atomic calls (admissions with or without the fork fla
 namespace Mixin.C04
 open Mixin.KV Mixin.Locks
 
-def cfg0 : Cfg := { exc := [101, 102, 103], nodes := [1, 2] }
+/-- the output types as the source has them (pinned by `ExpectedC04.unspentOutputs_table`,
+    `writeUTXO_body`): script 0, node pledge 163 / accept 164 / remove 166 / cancel 170,
+    withdrawal claim 169, custodian update 177 are materialised; withdrawal submit 161 and
+    custodian slash 178 are not -/
+def kinds0 : OutKinds :=
+  { materialized := [0, 163, 170, 164, 166, 169, 177], skipped := [161, 178], sideTypes := [163, 170, 164, 166, 177, 169] }
+
+def cfg0 : Cfg := { exc := [101, 102, 103], nodes := [1, 2], kinds := kinds0 }
 
 /-- key 7 is bound to transaction 5, whose body is stored -/
 def sample : Store := { ghost := [(7, 5)], tx := [(5, ()), (6, ())] }
@@ -38,7 +45,7 @@ theorem ghost_binding_immutable (c : Cfg) (s : Store) (ops : List Op) (k v : Nat
   | cons op rest ih => exact ih (step c s op) (step_ghost_mono c s op k v h)
 
 example : (run cfg0 sample [.lockGhostKeys [7] 101 true, .lockGhostKeys [7, 8] 6 true,
-    .snapshot 1 [{ id := 6, ins := [.genesis], outs := [[7]] }]]).ghost.get 7 = some 5 := by decide
+    .snapshot 1 [{ id := 6, ins := [.genesis], outs := [⟨164, [7]⟩] }] .ok]).ghost.get 7 = some 5 := by decide
 
 /-- `ghost_foreign_rejected`: a key list that contains a key bound to another transaction is
     refused and nothing changes — unless the call carries the fork flag *and* the requester is one
@@ -92,33 +99,83 @@ theorem ghost_duplicate_rejected (c : Cfg) (s : Store) (pre mid post : List Nat)
 example : exec cfg0 {} (.lockGhostKeys [1, 2, 1] 6 false) = .err := by decide
 
 /-- `finalize_never_overwrites`: finalizing (`WriteSnapshot`) a transaction that is not yet
-    finalized, is not an exception, and lists a key bound to another transaction does not
-    succeed; with `ghost_binding_immutable` the binding stays whatever the outcome. -/
-theorem finalize_never_overwrites (c : Cfg) (s : Store) (node : Nat) (t' : Tx) (ks : List Nat) (k t : Nat)
-    (hks : ks ∈ t'.outs) (hk : k ∈ ks) (hg : s.ghost.get k = some t) (hne : t ≠ t'.id)
+    finalized, is not an exception, and has a materialised output **of any type** (script, node
+    pledge / accept / cancel / remove, custodian update, withdrawal claim — everything
+    `UnspentOutputs` yields) with a key bound to another transaction does not succeed, whatever
+    the side effects of the output types do; with `ghost_binding_immutable` the binding stays
+    whatever the outcome. -/
+theorem finalize_never_overwrites (c : Cfg) (s : Store) (node : Nat) (t' : Tx) (side : Side) (o : OutSpec) (k t : Nat)
+    (ho : o ∈ t'.outs) (hmat : o.typ ∉ c.kinds.skipped) (hk : k ∈ o.keys)
+    (hg : s.ghost.get k = some t) (hne : t ≠ t'.id)
     (hx : t'.id ∉ c.exc) (hfin : s.fin.get t'.id = none) :
-    (∀ s', exec c s (.snapshot node [t']) ≠ .ok s') ∧ step c s (.snapshot node [t']) = s := by
-  have hf : finalizeTransaction c.exc s t' = none := by
-    unfold finalizeTransaction
-    rw [hfin]
-    exact writeUTXOs_foreign hks hk (by simpa using hg) hne hx
-  have h : ∀ s', exec c s (.snapshot node [t']) ≠ .ok s' := by
+    (∀ s', exec c s (.snapshot node [t'] side) ≠ .ok s') ∧ step c s (.snapshot node [t'] side) = s := by
+  have hf : ∀ s', finalizeTransaction c.exc c.kinds side s t' ≠ .ok s' := by
+    intro s' hfz
+    unfold finalizeTransaction at hfz
+    rw [hfin] at hfz
+    simp only at hfz
+    split at hfz
+    · exact writeUTXOs_foreign ho hmat hk (by simpa using hg) hne hx s' hfz
+    · cases hfz
+  have h : ∀ s', exec c s (.snapshot node [t'] side) ≠ .ok s' := by
     intro s' he
-    simp only [exec, writeSnapshot, snapshotLoop, hf] at he
+    simp only [exec, writeSnapshot] at he
     split at he
     · cases he
-    · split at he <;> cases he
+    · split at he
+      · unfold snapshotLoop at he
+        split at he
+        · next s1 h1 => exact hf s1 h1
+        · next hnot => exact hnot s' he
+      · cases he
   refine ⟨h, ?_⟩
   unfold step
   split
   · next s' he => exact absurd he (h s')
   · rfl
 
-example : exec cfg0 sample (.snapshot 1 [{ id := 6, ins := [.genesis], outs := [[8], [7]] }]) = .err := by decide
+example : exec cfg0 sample (.snapshot 1 [{ id := 6, ins := [.genesis], outs := [⟨0, [8]⟩, ⟨0, [7]⟩] }] .ok) = .err := by decide
+-- the same for a node-accept, a node-remove and a custodian-update output
+example : exec cfg0 sample (.snapshot 1 [{ id := 6, ins := [.genesis], outs := [⟨164, [7]⟩] }] .ok) = .err := by decide
+example : exec cfg0 sample (.snapshot 1 [{ id := 6, ins := [.genesis], outs := [⟨166, [8, 7]⟩] }] .ok) = .err := by decide
+example : exec cfg0 sample (.snapshot 1 [{ id := 6, ins := [.genesis], outs := [⟨177, [7]⟩] }] .panic) = .err := by decide
 -- and the same transaction is finalized when its keys are free or its own
-example : okAnd (exec cfg0 sample (.snapshot 1 [{ id := 5, ins := [.genesis], outs := [[8], [7]] }]))
+example : okAnd (exec cfg0 sample (.snapshot 1 [{ id := 5, ins := [.genesis], outs := [⟨0, [8]⟩, ⟨164, [7]⟩] }] .ok))
     (fun s' => s'.ghost.get 7 == some 5 && s'.ghost.get 8 == some 5 && s'.utxo.get (5, 1) == some 0) = true := by
   decide
+
+/-- `finalize_binds_all_keys`: after a successful finalization of a not yet finalized
+    transaction (not one of the exceptions), every key of every materialised output — of every
+    output type — is bound to that transaction. -/
+theorem finalize_binds_all_keys (c : Cfg) (s s' : Store) (node : Nat) (t : Tx) (side : Side) (o : OutSpec) (k : Nat)
+    (hok : exec c s (.snapshot node [t] side) = .ok s')
+    (hfin : s.fin.get t.id = none) (hx : t.id ∉ c.exc)
+    (ho : o ∈ t.outs) (hmat : o.typ ∉ c.kinds.skipped) (hk : k ∈ o.keys) :
+    s'.ghost.get k = some t.id := by
+  simp only [exec, writeSnapshot] at hok
+  split at hok
+  · cases hok
+  · split at hok
+    · unfold snapshotLoop at hok
+      split at hok
+      · next s1 h1 =>
+        simp only [snapshotLoop, Res.ok.injEq] at hok
+        subst hok
+        unfold finalizeTransaction at h1
+        rw [hfin] at h1
+        simp only at h1
+        split at h1
+        · exact writeUTXOs_binds h1 hx o ho hmat k hk
+        · cases h1
+      · next hnot => exact absurd hok (hnot s')
+    · cases hok
+
+def txAllTypes : Tx :=
+  { id := 6, ins := [.genesis], outs := [⟨163, [1]⟩, ⟨161, [2]⟩, ⟨166, [3, 4]⟩, ⟨177, [5]⟩, ⟨169, [6]⟩] }
+
+example : okAnd (exec cfg0 sample (.snapshot 1 [txAllTypes] .ok))
+    (fun s' => [1, 3, 4, 5, 6].all (fun k => s'.ghost.get k == some 6) && s'.ghost.get 2 == none
+      && s'.utxo.get (6, 2) == some 0 && s'.utxo.get (6, 1) == none) = true := by decide
 
 /-! ## a transaction that repeats a key among its own outputs is rejected -/
 
